@@ -308,17 +308,12 @@ class DataFileWriter:
                     # Atomic rename on both POSIX and Windows
                     os.replace(temp_name, self.file_path)
 
-                    # Sync directory to persist rename
-                    try:
-                        dir_path = os.path.dirname(self.file_path)
-                        dir_fd = os.open(dir_path, os.O_RDONLY)
-                        try:
-                            os.fsync(dir_fd)
-                        finally:
-                            os.close(dir_fd)
-                    except (OSError, AttributeError):
-                        # Directory fsync not supported - acceptable
-                        pass
+                    # Sync directory to persist rename (a genuine I/O failure
+                    # of that fsync fails the write: the data file must not be
+                    # committed with an unpersisted directory entry)
+                    from .storage_backend import fsync_directory
+
+                    fsync_directory(os.path.dirname(self.file_path))
 
                 except Exception:
                     # Clean up temp file if rename failed
